@@ -540,7 +540,21 @@ def rule_c(ctx: Ctx) -> None:
     for cdef in ctx.repo.all_classes():
         m = cdef.module
         bound: dict[str, ast.AST] = {}
-        for st in cdef.node.body:
+
+        def flat(body: list[ast.stmt]) -> list[ast.stmt]:
+            # statements executed by the class body, including those nested in for / if / with / try blocks
+            out: list[ast.stmt] = []
+            for s_ in body:
+                out.append(s_)
+                if isinstance(s_, (ast.For, ast.While, ast.If, ast.With, ast.Try)):
+                    for fld in ("body", "orelse", "finalbody"):
+                        out.extend(flat(getattr(s_, fld, []) or []))
+                    for h in getattr(s_, "handlers", []) or []:
+                        out.extend(flat(h.body))
+            return out
+
+        class_stmts = flat(cdef.node.body)
+        for st in class_stmts:
             if isinstance(st, ast.Assign):
                 for tg in st.targets:
                     if isinstance(tg, ast.Name):
@@ -568,7 +582,7 @@ def rule_c(ctx: Ctx) -> None:
                 fresh_keys = {norm(k_, 40) for k_ in getattr(bound[target.id], "keys", []) if k_ is not None}
                 rebound_before = any(
                     isinstance(p_, ast.Assign) and any(isinstance(tg_, ast.Subscript) and norm(tg_.value) == target.id and norm(tg_.slice, 40) == key_txt for tg_ in p_.targets)
-                    for p_ in cdef.node.body[: cdef.node.body.index(st)]
+                    for p_ in class_stmts[: class_stmts.index(st)]
                 )
                 if key_txt in fresh_keys or rebound_before:
                     ctx.ok(f"{where}|{norm(st)}", {"stmt": norm(st), "element": "bound to a fresh value in this class body"})
